@@ -83,7 +83,8 @@ TagVarClauses(p, post, cons, ev) ==
          : j \in 1..Len(ev.tagvars)}
 
 TagClauses(ev) ==
-  F("nochange", \E j \in 1..Len(ev.retdiff) : ev.retdiff[j].tag = "N" /\ ev.retdiff[j].aligned /\ ev.retdiff[j].primal # ev.retdiff[j].prev)
+  F("ret.returned", ev.hasretp /\ NormV(ev.retp) # NormV(ev.post.ret))      \* edit returns the new trace's return value to its caller
+  \cup F("nochange", \E j \in 1..Len(ev.retdiff) : ev.retdiff[j].tag = "N" /\ ev.retdiff[j].aligned /\ ev.retdiff[j].primal # ev.retdiff[j].prev)
 
 \* C23: the same operation with the same key in another execution mode (eager vs jit; slice of a vmapped call vs
 \* the unbatched call) gives the same result
